@@ -40,6 +40,8 @@ class ClassDef:
     fields: list[FieldDef] = field(default_factory=list)
     extra_body: str = ""
     slots: bool = False
+    local: bool = False  # defined inside a factory function (its __qualname__ is not its __name__)
+    positional: bool = False  # decorator without kw_only=True: fields are positional unless they say otherwise
     more_bases: tuple[str, ...] = ()  # multiple inheritance: further bases after `base`
     abstract: bool = False  # has an unimplemented abstract method (cannot be instantiated)
 
@@ -82,6 +84,26 @@ TABLE: list[ClassDef] = [
             FieldDef("ni", "int", "int", "7", init=False),
             FieldDef("nn", "int", "int", "1", init=False, compare=False),
         ],
+    ),
+    # a class defined inside a function (a model factory): its qualified name is not its name
+    ClassDef("LocalLeaf", "Base", [FieldDef("v", "int", "int", "0")], local=True),
+    ClassDef("LocalBox", "Base", [FieldDef("kid", "Base | None", "opt", "None", classes=ANY)], local=True),
+    # a child field called `children` (a legal field name; it hides the inherited convenience property
+    # of that name for this class) next to other child fields
+    ClassDef(
+        "Kids", "Base",
+        [FieldDef("header", "Base | None", "opt", "None", classes=ANY),
+         FieldDef("children", "tuple[Base, ...]", "tuple", "()", classes=ANY),
+         FieldDef("footer", "Base | None", "opt", "None", classes=ANY)],
+    ),
+    # child fields declared keyword-only *before* a positional one (the field order is the declaration
+    # order, only the constructor signature moves keyword-only parameters to the end)
+    ClassDef(
+        "KwFirst", "Base",
+        [FieldDef("late", "Base | None", "opt", "None", classes=ANY, extra_args="kw_only=True"),
+         FieldDef("early", "Base | None", "opt", "None", classes=ANY),
+         FieldDef("v", "int", "int", "0")],
+        positional=True,
     ),
     # a property typed Any that holds a node (or a tuple of nodes) at run time, e.g. a resolved
     # reference to a declaration elsewhere: a value, not a child
@@ -330,7 +352,9 @@ def emit_source(perm_seed: int | None = None) -> str:
     rnd = random.Random(perm_seed) if perm_seed is not None else None
     out = [HEADER]
     for c in TABLE:
-        out.append("\n@dataclass(frozen=True, kw_only=True" + (", slots=True, weakref_slot=True" if c.slots else "") + ")\n")
+        chunk_start = len(out)
+        out.append("\n@dataclass(frozen=True" + ("" if c.positional else ", kw_only=True")
+                   + (", slots=True, weakref_slot=True" if c.slots else "") + ")\n")
         out.append(f"class {c.name}({', '.join((c.base, *c.more_bases))}):\n")
         flds = list(c.fields)
         if rnd is not None:
@@ -354,8 +378,29 @@ def emit_source(perm_seed: int | None = None) -> str:
                 body += f"    {f.name}: {f.ann}\n"
         body += c.extra_body
         out.append(body or "    pass\n")
+        if c.local:
+            text = "".join(out[chunk_start:])
+            del out[chunk_start:]
+            indented = "".join(("    " + ln if ln.strip() else ln) for ln in text.splitlines(keepends=True))
+            out.append(f"\n\ndef _mk_{c.name}():{indented}\n    return {c.name}\n\n\n{c.name} = _mk_{c.name}()\n")
     out.append(SAME_NAME_TAIL)
+    out.append(MARKER_TAIL)
     return "".join(out)
+
+
+# an abstract marker that node classes are *registered* with (virtual subclasses: isinstance holds, the
+# marker is in nobody's MRO)
+MARKER_TAIL = '''
+
+class Marker(abc.ABC):
+    pass
+
+
+Marker.register(Mixed)
+Marker.register(Uni)
+Marker.register(LeafB)
+'''
+MARKED = ("Mixed", "Uni", "LeafB", "InhMixed")  # registered classes and their subclasses
 
 
 # two different classes with one simple (and qualified) name in one module, as a class factory called
